@@ -741,7 +741,7 @@ impl<'a> Gen<'a> {
         // signals parked while the ring is full are only guaranteed while the thread lives
         self.no_exit.insert(t);
         // sometimes many traces end during the episode: their finish / cancel signals are all parked
-        let mass: Vec<u32> = if self.rng.chance(1, 3) {
+        let mass: Vec<u32> = if self.rng.chance(1, 2) {
             let m = if self.rng.chance(1, 3) { self.rng.range(70, 320) } else { self.rng.range(18, 70) };
             (0..m)
                 .map(|_| {
@@ -784,6 +784,14 @@ impl<'a> Gen<'a> {
         }
         let hold_to = self.prog.ops.len();
         self.prog.no_cycle.push((hold_from + 1, hold_to));
+        // deepest parked cancel first: its finish arrives while most of the list is still parked
+        if !late.is_empty() && self.rng.chance(1, 2) {
+            let at = self.prog.ops.len();
+            self.prog.drain_points.push(at);
+        }
+        if self.rng.chance(3, 4) {
+            late.reverse();
+        }
         for l in late {
             self.push(t, Op::Finish { span: l });
             self.reserved.remove(&l);
